@@ -1,11 +1,240 @@
-/- Driver for C19 (stub — not built yet) -/
+/-
+Driver for C19: replays a transcript (module/gate/connect build lines, then topology queries)
+through the topology model `Topo.*` (Model/Topo.lean, work-lists popped from the front = the
+repaired code) over the gate model, and checks every answer against the abstract module graph
+`Graph.*` (Spec/Graph.lean) derived from the path specification.
+-/
+import Desverif.Model.Topo
+import Desverif.Spec.Graph
 import Driver.Common
 namespace Driver.C19
-open Driver
+open Driver Gate
+
+def ident (pre : Char) (s : String) : Option Nat :=
+  match s.toList with
+  | c :: rest => if c = pre then (String.ofList rest).toNat? else none
+  | [] => none
+
+def listOr (e : String) (sep : String) (l : List String) : String :=
+  if l.isEmpty then e else sep.intercalate l
+
+structure St where
+  n : Nat
+  net : Net := Net.empty
+  sp : Paths.State
+  mods : List Nat := []
+  owner : List (Nat × Nat) := []        -- gate ↦ module, creation order
+
+def St.ownerOf (st : St) (g : Nat) : Nat := ((st.owner.find? (·.1 == g)).map (·.2)).getD 0
+def St.gatesOf (st : St) (m : Nat) : List Nat := (st.owner.filter (·.2 == m)).map (·.1)
+
+def St.world (st : St) : Topo.World :=
+  { net := st.net, ngates := st.n, mods := st.mods, gates := st.gatesOf, owner := st.ownerOf }
+
+def St.graph (st : St) : Graph.G := Graph.ofPaths st.sp st.mods st.gatesOf st.ownerOf
+
+def b01 (b : Bool) : String := if b then "1" else "0"
+
+def showFull (t : Topo.T) (fe : Topo.FullEdge) : String :=
+  s!"m{t.nodes.getD fe.src 0}:g{fe.e.start}>m{t.nodes.getD fe.e.dst 999999}:g{fe.e.stop}"
+
+def showSpecEdge (e : Graph.Edge) : String := s!"m{e.src}:g{e.start}>m{e.dst}:g{e.stop}"
+
+def describeModel (t : Topo.T) : String :=
+  if ¬ t.WF then "ill-formed" else
+  s!"nodes={listOr "none" "," (t.nodes.map fun m => s!"m{m}")} edges={listOr "none" ";" ((Topo.allEdges t).map (showFull t))} conn={b01 (Topo.connected t)} bidi={b01 (Topo.bidirectional t)}"
+
+def describeSpec (g : Graph.G) : String :=
+  s!"nodes={listOr "none" "," (g.mods.map fun m => s!"m{m}")} edges={listOr "none" ";" (g.edges.map showSpecEdge)} conn={b01 (Graph.connected g)} bidi={b01 (Graph.bidirectional g)}"
+
+/-- parse `nodes=… edges=… conn=… bidi=…` into (sorted nodes, sorted edges, conn, bidi) -/
+def canon (s : String) : String :=
+  let toks := words s
+  let nodes := ((kv toks "nodes").getD "none").splitOn ","
+  let edges := (((toks.find? (·.startsWith "edges=")).getD "edges=none").drop 6).toString.splitOn ";"
+  let srt := fun (l : List String) => (l.toArray.qsort (· < ·)).toList
+  s!"nodes={",".intercalate (srt nodes)} edges={";".intercalate (srt edges)} conn={(kv toks "conn").getD "?"} bidi={(kv toks "bidi").getD "?"}"
+
+def parseMods (s : String) : List Nat := if s = "none" then [] else (s.splitOn ",").filterMap (ident 'm')
+
+/-- model answer of `dijkstra` -/
+def dijkstraModel (t : Topo.T) (src : Nat) : String :=
+  if ¬ t.WF then "ill-formed" else
+  match Topo.dijkstra t .front src with
+  | none => "panic"
+  | some l =>
+    let l := (l.toArray.qsort (fun a b => a.1 < b.1)).toList
+    listOr "none" ";" (l.map fun p => s!"m{p.1}={showFull t p.2}")
+
+/-- spec acceptance of a `dijkstra` answer on graph `g` from `src`:
+    exactly the reachable modules other than `src` have an entry; each entry is an edge leaving `src`
+    that starts a minimum-hop path to the target -/
+def dijkstraAccept (g : Graph.G) (src : Nat) (ans : String) : Option String := Id.run do
+  let entries := if ans = "none" then [] else ans.splitOn ";"
+  let mut seen : List Nat := []
+  for en in entries do
+    match en.splitOn "=" with
+    | [tgt, edge] =>
+      match ident 'm' tgt, edge.splitOn ">" with
+      | some t, [fromS, toS] =>
+        match (fromS.splitOn ":"), (toS.splitOn ":") with
+        | [fm, fg], [tm, tg] =>
+          match ident 'm' fm, ident 'g' fg, ident 'm' tm, ident 'g' tg with
+          | some fm, some fg, some tm, some tg =>
+            seen := t :: seen
+            if !(g.edges.contains ⟨fm, fg, tm, tg⟩) then return some s!"entry-m{t}-is-not-an-edge"
+            if fm != src then return some s!"entry-m{t}-does-not-leave-the-source"
+            match Graph.dist g src t, Graph.dist g tm t with
+            | some d, some d' => if d != d' + 1 then return some s!"entry-m{t}-not-on-a-min-hop-path-dist={d}-via={d' + 1}"
+            | _, _ => return some s!"entry-m{t}-target-unreachable"
+          | _, _, _, _ => return some "unparsable"
+        | _, _ => return some "unparsable"
+      | _, _ => return some "unparsable"
+    | _ => return some "unparsable"
+  for t in Graph.reachable g src do
+    if t != src && !seen.contains t then return some s!"reachable-m{t}-has-no-entry"
+  return none
+
+structure Stats where
+  queries : Nat := 0
+  spanned : Nat := 0
+  dijkstra : Nat := 0
+  filters : Nat := 0
+  maxnodes : Nat := 0
+  maxedges : Nat := 0
+  frontier : Nat := 0      -- spanned views whose root has >= 2 distinct neighbours
+  far : Nat := 0           -- dijkstra answers with a target at distance >= 2
+
+def maxGate (body : List String) : Nat := Id.run do
+  let mut n := 0
+  for line in body do
+    match words (splitArrow line).1 with
+    | "gate" :: g :: _ => if let some j := ident 'g' g then n := max n (j + 1)
+    | _ => pure ()
+  return n
+
+def runCase (c : Case) : String := Id.run do
+  let h := words c.header
+  let id := (h[1]?).getD "?"
+  let n := maxGate c.body
+  let mut st : St := { n := n, sp := Paths.init n }
+  let mut s : Stats := {}
+  let mut i := 0
+  for line in c.body do
+    if line.startsWith "end" then
+      if line != "end" then return s!"fail {id} op={i} kind=reject clause=drop-panic impl=[{line}]"
+      continue
+    i := i + 1
+    let (lhs, rhs) := splitArrow line
+    let l := words lhs
+    let impl := rhs.trimAscii.toString
+    let failR := fun (spec model : String) => s!"fail {id} op={i} kind=reject line=[{lhs}] spec=[{spec}] model=[{model}] impl=[{impl}]"
+    let failD := fun (spec model : String) => s!"fail {id} op={i} kind=diverge line=[{lhs}] spec=[{spec}] model=[{model}] impl=[{impl}]"
+    match l with
+    | ["mod", m] =>
+      match ident 'm' m with
+      | some m => st := { st with mods := st.mods ++ [m] }
+      | none => return s!"fail {id} op={i} kind=badline detail=[{line}]"
+    | "gate" :: g :: rest =>
+      match ident 'g' g, (kv rest "mod").bind (ident 'm') with
+      | some g, some m => st := { st with owner := st.owner ++ [(g, m)] }
+      | _, _ => return s!"fail {id} op={i} kind=badline detail=[{line}]"
+    | ["connect", a, b] =>
+      match ident 'g' a, ident 'g' b with
+      | some a, some b =>
+        let (exp, sp') := Paths.connect st.sp a b
+        let specAns := match exp with
+          | .noop | .linked => "ok"
+          | _ => "panic"
+        let (modelAns, net') := match connect st.net a b none with
+          | .ok net' => ("ok", net')
+          | .error _ => ("panic", st.net)
+        if impl != specAns then return failR specAns modelAns
+        if impl != modelAns then return failD specAns modelAns
+        st := { st with net := net', sp := sp' }
+      | _, _ => return s!"fail {id} op={i} kind=badline detail=[{line}]"
+    | ["topo"] =>
+      let t := Topo.current st.world
+      let g := st.graph
+      s := { s with queries := s.queries + 1, maxnodes := max s.maxnodes g.mods.length, maxedges := max s.maxedges g.edges.length }
+      let sa := describeSpec g
+      let ma := describeModel t
+      if impl != sa then return failR sa ma
+      if impl != ma then return failD sa ma
+    | ["edgesfor", m] =>
+      match ident 'm' m with
+      | some m =>
+        let t := Topo.current st.world
+        let g := st.graph
+        let sa := listOr "none" ";" ((g.edges.filter (·.src == m)).map showSpecEdge)
+        let ma := listOr "none" ";" ((Topo.edgesFor t m).map (showFull t))
+        s := { s with queries := s.queries + 1 }
+        if impl != sa then return failR sa ma
+        if impl != ma then return failD sa ma
+      | none => return s!"fail {id} op={i} kind=badline detail=[{line}]"
+    | ["spanned", m] =>
+      match ident 'm' m with
+      | some m =>
+        let g := st.graph
+        let reach := Graph.reachable g m
+        let sub := Graph.induced g (fun x => reach.contains x)
+        let sa := canon (describeSpec sub)
+        let ma := match Topo.spanned st.world .front m with
+          | some t => describeModel t
+          | none => "out-of-fuel"
+        s := { s with queries := s.queries + 1, spanned := s.spanned + 1 }
+        if ((Graph.succs g m).eraseDups.filter (· != m)).length ≥ 2 then s := { s with frontier := s.frontier + 1 }
+        if impl == "panic" || canon impl != sa then return failR sa ma
+        if impl != ma then return failD sa ma
+      | none => return s!"fail {id} op={i} kind=badline detail=[{line}]"
+    | ["dijkstra", m] =>
+      match ident 'm' m with
+      | some m =>
+        let g := st.graph
+        let ma := dijkstraModel (Topo.current st.world) m
+        s := { s with queries := s.queries + 1, dijkstra := s.dijkstra + 1 }
+        if (g.mods.any fun t => match Graph.dist g m t with | some d => d ≥ 2 | none => false) then s := { s with far := s.far + 1 }
+        match (if impl == "panic" then some "panicked" else dijkstraAccept g m impl) with
+        | some why => return failR why ma
+        | none => pure ()
+        if impl != ma then return failD "accepted" ma
+      | none => return s!"fail {id} op={i} kind=badline detail=[{line}]"
+    | ["sdijkstra", r, m] =>
+      match ident 'm' r, ident 'm' m with
+      | some r, some m =>
+        let g := st.graph
+        let reach := Graph.reachable g r
+        let sub := Graph.induced g (fun x => reach.contains x)
+        let ma := match Topo.spanned st.world .front r with
+          | some t => dijkstraModel t m
+          | none => "out-of-fuel"
+        s := { s with queries := s.queries + 1, dijkstra := s.dijkstra + 1 }
+        -- the source may lie outside the spanned view: "unknown node" panic
+        if !reach.contains m then
+          if impl != "panic" then return failR "panic-unknown-node" ma
+        else
+          match (if impl == "panic" then some "panicked" else dijkstraAccept sub m impl) with
+          | some why => return failR why ma
+          | none => pure ()
+        if impl != ma then return failD "accepted" ma
+      | _, _ => return s!"fail {id} op={i} kind=badline detail=[{line}]"
+    | ["filter", keep] =>
+      let keep := parseMods keep
+      let g := Graph.induced st.graph (fun x => keep.contains x)
+      let t := Topo.filterNodes (Topo.current st.world) (fun x => keep.contains x)
+      let sa := describeSpec g
+      let ma := describeModel t
+      s := { s with queries := s.queries + 1, filters := s.filters + 1 }
+      if impl != sa then return failR sa ma
+      if impl != ma then return failD sa ma
+    | _ => return s!"fail {id} op={i} kind=badline detail=[{line}]"
+  -- non-trivial: >= 3 modules, >= 4 edges, a spanned view with >= 2 frontier nodes and a dijkstra with a far target
+  let nt := s.maxnodes ≥ 3 && s.maxedges ≥ 4 && s.frontier ≥ 1 && s.far ≥ 1
+  return s!"ok {id} nt={if nt then 1 else 0} ops={i} queries={s.queries} spanned={s.spanned} dijkstra={s.dijkstra} filters={s.filters} frontier={s.frontier} far={s.far} nodes={s.maxnodes} edges={s.maxedges}"
 
 def main (stdin : IO.FS.Stream) : IO Unit := do
   let cases ← readCases stdin
   for c in cases do
-    IO.println s!"fail {(words c.header)[1]?.getD "?"} op=0 kind=unimplemented"
+    IO.println (runCase c)
 
 end Driver.C19
